@@ -19,6 +19,7 @@ THEOREMS = [
     "C13_blame",
     "C13_bindings",
     "C13_generated_good",
+    "C13_source_wrapper",
 ]
 RULE = (
     "ill- and well-typed calls of jaxtyped(typechecker=tc) functions with 1..4 parameters (arrays with "
